@@ -239,6 +239,37 @@ def malformed(rep, tier):
                 replay=dict(reproduced=True, detail=f'{f[0]} with hint {f[1]}: {f[2]}'), replay_script=f'print({f!r}); sys.exit(1)\n')
     rep.bounded.append(dict(kind='malformed-hint generator through the public API (bounded stand-in, NOT counted as proved)', hints=len(bad), cases=cases, failing=len(fails)))
 
+def valid_comparisons(rep):
+    """bounded: the comparison entry points (is_subhint, TypeHint <=, ==, is_superhint) over all ordered pairs of a palette of VALID hints raise
+    nothing but BeartypeException subclasses (the quantifier's 'valid' case for the entry points TypeHint and is_subhint)"""
+    from props import c19
+    from pyvc import shapes
+    from beartype.door import is_subhint, TypeHint
+    from beartype.roar import BeartypeException
+    c19.setup_ns()
+    hints = {}
+    for src in c19.PALETTE + ['Annotated[Optional[int], V1]', 'Annotated[Union[int, str], V1]', 'list[Annotated[Optional[int], V1]]', 'Annotated[TB, V1]', 'Annotated[TC, V2]', 'Optional[Annotated[int, V1]]']:
+        try: hints[src] = shapes.ev(src)
+        except Exception: pass
+    cases = 0; fails = []
+    def ok_exc(e): return isinstance(e, BeartypeException) and not type(e).__name__.startswith('_')
+    for a, ha in hints.items():
+        for b, hb in hints.items():
+            for name, th in (('is_subhint', lambda: is_subhint(ha, hb)), ('le', lambda: TypeHint(ha) <= TypeHint(hb)), ('eq', lambda: TypeHint(ha) == TypeHint(hb)), ('is_superhint', lambda: TypeHint(ha).is_superhint(TypeHint(hb)))):
+                cases += 1
+                try: th()
+                except BaseException as e:
+                    if not ok_exc(e): fails.append((name, a, b, f'{type(e).__name__}: {e}'[:160]))
+    groups = {}
+    for f in fails: groups.setdefault((f[0], f[3].split(':')[0]), []).append(f)
+    for (api, exc), items in sorted(groups.items()):
+        f = items[0]
+        rep.add(f'C11.valid_hints.{api}.{exc}', 'refuted', backend='runtime-contract', bounded=True, where=f'{len(items)} pairs; e.g. {f[0]}({f[1]}, {f[2]}) -> {f[3]}', solver_output='bounded run-time contract on the real public API (not a proof)',
+                replay=dict(reproduced=True, detail=f'{f[0]}({f[1]}, {f[2]}): {f[3]}'),
+                replay_script=f"from props import c19\nfrom pyvc import shapes\nfrom beartype.door import is_subhint\nfrom beartype.roar import BeartypeException\nc19.setup_ns()\ntry: is_subhint(shapes.ev({f[1]!r}), shapes.ev({f[2]!r})); sys.exit(0)\nexcept BeartypeException: sys.exit(0)\nexcept BaseException as e: print('REPRODUCED', type(e).__name__, e); sys.exit(1)\n")
+    rep.bounded.append(dict(kind='comparison entry points over all ordered pairs of a palette of valid hints (bounded stand-in, NOT counted as proved)', hints=len(hints), cases=cases, failing=len(fails)))
+    if not cases: rep.error('C11 valid_comparisons: no case')
+
 LATE_SRC = """
 import sys, typing, types, warnings
 from beartype import beartype
@@ -313,6 +344,8 @@ def main(tier, seed):
     except Exception: rep.error('C11 relay: ' + traceback.format_exc()[-1500:])
     try: malformed(rep, tier)
     except Exception: rep.error('C11 malformed: ' + traceback.format_exc()[-2000:])
+    try: valid_comparisons(rep)
+    except Exception: rep.error('C11 valid_comparisons: ' + traceback.format_exc()[-2000:])
     try:
         # no internal desynchronisation error at call time: the explanation path inspects the very item the generated check rejected
         from props import errpath
